@@ -218,6 +218,9 @@ func c10Case(w *core.W, j int) {
 	g.NoHuge = true
 	g.MaxOpaque = 60
 	alg := allAlgs[j%len(allAlgs)]
+	if alg == dns.RSASHA1 && (j/len(allAlgs))%3 == 2 {
+		alg = dns.RSASHA1NSEC3SHA1 // the same RSA/SHA-1 under its NSEC3-aware number (RFC 5155 s.2): a supported algorithm like the others
+	}
 	bits := algBits[alg][(j/len(allAlgs))%len(algBits[alg])]
 	zone := model.Name{[]byte("Signed"), []byte("EXAMPLE")}
 	if j%5 == 3 {
@@ -345,6 +348,22 @@ func c10Case(w *core.W, j int) {
 		}
 	}
 	sig := &dns.RRSIG{Algorithm: alg, KeyTag: k.Key.KeyTag(), SignerName: zone.Pres(), Inception: 1_700_000_000, Expiration: 1_800_000_000}
+	// validity times are signed octets like any other; Verify is the cryptographic test and does not look
+	// at the clock (ValidityPeriod does, see C17). Windows of every shape: across the 2^32 wrap (the
+	// expiration is the numerically smaller value), unset (0), expired long ago, inception == expiration
+	switch j % 9 {
+	case 2:
+		sig.Inception, sig.Expiration = 4293967296, 1592000 // inception + 30 days, wrapped
+	case 4:
+		sig.Inception, sig.Expiration = 1_700_000_000, 0
+	case 6:
+		sig.Inception, sig.Expiration = 0, 0
+	case 7:
+		sig.Inception, sig.Expiration = 100, 200
+	case 8:
+		sig.Inception, sig.Expiration = 4294967295, 4294967295
+	}
+	w.Cover("validity_shape", fmt.Sprint(j%9))
 	if j%3 == 1 {
 		sig.SignerName = zone.Lower().Pres()
 	}
